@@ -77,6 +77,7 @@ type BaseStore struct {
 	muIndex   sync.RWMutex
 	muJoining sync.Mutex
 	muUpdate  sync.Mutex
+	muStatus  sync.Mutex
 	sortFn    ipfslog.SortFn
 	logger    *zap.Logger
 	tracer    trace.Tracer
@@ -877,6 +878,9 @@ func (b *BaseStore) AddOperation(ctx context.Context, op operation.Operation, on
 }
 
 func (b *BaseStore) recalculateReplicationProgress() {
+	b.muStatus.Lock()
+	defer b.muStatus.Unlock()
+
 	max := b.ReplicationStatus().GetMax()
 	if progress := b.ReplicationStatus().GetProgress() + 1; progress < max {
 		max = progress
@@ -890,10 +894,15 @@ func (b *BaseStore) recalculateReplicationProgress() {
 }
 
 func (b *BaseStore) recalculateReplicationMax(max int) {
+	b.muStatus.Lock()
+	defer b.muStatus.Unlock()
+
 	if opLogLen := b.OpLog().Len(); opLogLen > max {
 		max = opLogLen
+	}
 
-	} else if replMax := b.ReplicationStatus().GetMax(); replMax > max {
+	// the maximum never decreases while the store is open
+	if replMax := b.ReplicationStatus().GetMax(); replMax > max {
 		max = replMax
 	}
 
